@@ -38,6 +38,11 @@ const MARK_PUB: &str = ".c05-pub";
 const MARK_GCLIST: &str = ".c05-gclist";
 const MARK_ATTEMPT: &str = ".c05-lock-attempt";
 const MARK_WARM: &str = ".c05-warm";
+/// set when an operation failed because the OS refused to create a thread (shared machine)
+static ENV_TROUBLE: AtomicBool = AtomicBool::new(false);
+fn env_failure(m: &str) -> bool {
+    m.contains("Resource temporarily unavailable") || m.contains("Failed to spawn") || m.contains("failed to spawn thread")
+}
 const WORDS: [&str; 8] = ["apple", "berry", "cedar", "delta", "ember", "fjord", "grove", "heath"];
 
 // ------------------------------------------------------------------------------------------
@@ -881,7 +886,13 @@ fn do_reload(gdir: &GDir, reader: &IndexReader) -> Obs {
             let s = reader.searcher();
             Obs { ok: true, err: String::new(), sig: sig_of(&s), check: Some(s) }
         }
-        Ok(Err(e)) => Obs { ok: false, err: format!("{e}"), sig: vec![], check: None },
+        Ok(Err(e)) => {
+            let err = format!("{e}");
+            if env_failure(&err) {
+                ENV_TROUBLE.store(true, Ordering::SeqCst);
+            }
+            Obs { ok: false, err, sig: vec![], check: None }
+        }
         Err(_) => Obs { ok: false, err: "PANIC".into(), sig: vec![], check: None },
     }
 }
@@ -1997,11 +2008,32 @@ fn scenario_generations(ctx: &mut Ctx, seed: u64) {
 
 /// a scenario must not take the harness down: an unexpected failure of a writer / index call
 /// (an `unwrap` in the scenario) is reported with its message and a replayable case
-fn guarded(ctx: &mut Ctx, case: Value, f: impl FnOnce(&mut Ctx)) {
-    let r = catch_unwind(AssertUnwindSafe(|| f(ctx)));
-    if let Err(e) = r {
-        let msg = e.downcast_ref::<String>().cloned().or_else(|| e.downcast_ref::<&str>().map(|s| s.to_string())).unwrap_or_else(|| "panic".into());
+fn guarded(ctx: &mut Ctx, case: Value, f: impl Fn(&mut Ctx)) {
+    // the machine is shared: when the OS refuses to create a thread (EAGAIN) the scenario says
+    // nothing about the property; it is retried after a pause and, failing that, recorded as a
+    // note (not as a violation)
+    for attempt in 0..3 {
+        let before = ctx.report.violations.len();
+        ENV_TROUBLE.store(false, Ordering::SeqCst);
+        let r = catch_unwind(AssertUnwindSafe(|| f(ctx)));
+        let msg = match r {
+            Ok(()) if ENV_TROUBLE.load(Ordering::SeqCst) => "Failed to spawn (reported by a reload)".to_string(),
+            Ok(()) => return,
+            Err(e) => e.downcast_ref::<String>().cloned().or_else(|| e.downcast_ref::<&str>().map(|s| s.to_string())).unwrap_or_else(|| "panic".into()),
+        };
+        if env_failure(&msg) {
+            ctx.report.count("env:thread-spawn-refused-by-os");
+            // drop what the aborted attempt may have reported half-way
+            ctx.report.violations.truncate(before);
+            if attempt == 2 {
+                ctx.report.notes.push(format!("scenario {} given up after 3 attempts: the OS refused to create threads ({})", case["scenario"], msg.chars().take(120).collect::<String>()));
+                return;
+            }
+            std::thread::sleep(Duration::from_secs(3));
+            continue;
+        }
         ctx.report.violation("oracle", "C05:index-operation-failed", format!("a writer / reader / index operation of the scenario failed or panicked: {}", msg.chars().take(300).collect::<String>()), case);
+        return;
     }
 }
 
@@ -2065,12 +2097,12 @@ pub fn run(ctx: &mut Ctx) {
         let free = i % 2 == 1;
         guarded(ctx, json!({"scenario": "oncommit", "seed": seed, "free_running": free}), |ctx| scenario_oncommit(ctx, seed, free));
     }
-    let n_gen = ctx.budget(3, 14);
+    let n_gen = ctx.budget(3, 8);
     for _ in 0..n_gen {
         let seed = ctx.rng.next_u64();
         guarded(ctx, json!({"scenario": "generations", "seed": seed}), |ctx| scenario_generations(ctx, seed));
     }
-    let n_ov = ctx.budget(32, 240);
+    let n_ov = ctx.budget(32, 180);
     for i in 0..n_ov {
         let seed = ctx.rng.next_u64();
         let mmap = i % 8 == 7 || i % 8 == 4;
